@@ -19,8 +19,9 @@
       badger : Update = one badger txn (atomic); BulkWrite = badger.WriteBatch, which commits
                and starts a new txn whenever the current one is full: the batch may be CUT between
                any two Sets (not atomic for large calls)
-      pebble : BulkWrite = one pebble.Batch (atomic up to 3 GB); Update = `pebbleTransaction{db}`,
-               every Set/Delete goes straight to the db: NOT a transaction, every write is its own group
+      pebble : BulkWrite = one pebble.Batch (atomic up to 3 GB); Update = one indexed pebble.Batch,
+               committed when the callback succeeds (atomic; before the repair — `pebbleOld` — it was
+               `pebbleTransaction{db}`: every Set/Delete went straight to the db, each its own group)
   * READER calls as: ONE iterator scan on the snapshot taken when the View opens, followed by
     one `it.Get` per scanned item (`Path`).  Which store the `it.Get` reads (`GetMode`):
       scanSnap : the same snapshot as the iterator (badger, bolt: `tx.Get` of the View's txn)
@@ -79,7 +80,10 @@ structure Driver where
 def bolt : Driver := ⟨true, true, true⟩
 def badger : Driver := ⟨true, false, true⟩
 def level : Driver := ⟨true, true, false⟩
-def pebble : Driver := ⟨false, true, false⟩
+def pebble : Driver := ⟨true, true, false⟩
+/-- pebble before `fix:` (pebble Update as one indexed batch): `Update` was `pebbleTransaction{db}`,
+    every Set / Delete went straight to the database — each write its own group -/
+def pebbleOld : Driver := ⟨false, true, false⟩
 
 /-- how a call's writes reach the store: one group, or (worst case) one group per write -/
 def cut (atomic : Bool) (ws : List W) : List (List W) :=
